@@ -58,6 +58,7 @@ async fn serve() {
         let res = match req["cmd"].as_str().unwrap_or("") {
             "dedup" => dedup(&req).await,
             "filters" => filters(&req),
+            "filters_stream" => filters_stream(&req),
             "snapshot" => snapshot_cmd(&req).await,
             "web" => web_cmd(&req).await,
             "tui" => tui(&req),
@@ -240,6 +241,42 @@ fn filters(req: &Value) -> Value {
         }),
         Err(e) => json!({"cmd": "filters", "panic": panic_text(e)}),
     }
+}
+
+/// {"cmd":"filters_stream","toml":..,"frames":[hex,..]}: ONE Filters value judges the records in
+/// order, as main.rs's loop does (a verdict must not depend on the records judged before)
+fn filters_stream(req: &Value) -> Value {
+    let toml_text = req["toml"].as_str().unwrap_or("");
+    let filter: Filters = match toml::from_str(toml_text) {
+        Ok(f) => f,
+        Err(e) => return json!({"error": format!("toml: {e}")}),
+    };
+    let mut out = vec![];
+    for f in req["frames"].as_array().cloned().unwrap_or_default() {
+        let frame = hex::decode(f.as_str().unwrap_or("")).unwrap_or_default();
+        let mut tmsg = TimedMessage {
+            timestamp: 0.,
+            frame,
+            message: None,
+            metadata: vec![],
+            decode_time: None,
+        };
+        let res = catch_unwind(AssertUnwindSafe(|| {
+            tmsg.message = Message::try_from(tmsg.frame.as_slice()).ok();
+            let kept = Filters::is_in(&filter, &tmsg);
+            let js = serde_json::to_string(&tmsg).ok();
+            (tmsg.message.is_some(), kept, js)
+        }));
+        out.push(match res {
+            Ok((decoded, kept, js)) => json!({
+                "decoded": decoded,
+                "kept": kept,
+                "json": js.and_then(|s| serde_json::from_str::<Value>(&s).ok()),
+            }),
+            Err(e) => json!({"panic": panic_text(e)}),
+        });
+    }
+    json!({"cmd": "filters_stream", "out": out})
 }
 
 // ------------------------------------------------------------- snapshot (C12)
